@@ -91,6 +91,8 @@ def run_property(prop, tier, jobs):
                 c = REG.get(q)
                 if q in done or q in todo or c is None:
                     continue
+                if getattr(c, 'no_body', False):
+                    continue
                 if getattr(c, 'assumed', False) or not getattr(c, 'body_proved', True):
                     pending_contracts.add(q)
                     continue
